@@ -555,7 +555,6 @@ def run(case):
                     d.s.set_hook(step)
                     w.poll_hook = hook
                     w.tick_sleeps = 0
-                    run.fault('restart')
                 r = d.exec(b'CONT', poll_cap=20000)
                 out += r.out
                 w.stats['conts'] += 1
